@@ -26,6 +26,24 @@ var restFnVal = V{K: model.KFn, S: "rest"} // (fn [& xs] xs)
 func c13Alphabet() []V {
 	L, Vc, I, S := model.List, model.Vec, model.Int, model.Str
 	a, b := model.Key{Kw: true, S: "a"}, model.Key{Kw: true, S: "b"}
+	base := c13AlphabetBase()
+	if vf.Tier != "thorough" {
+		return base
+	}
+	// thorough: more lengths (2 and 4 elements: a vector literal of 4 has no spare capacity, one of
+	// 5 has), longer strings, a third key, an integer-keyed set, a deeper nesting
+	return append(base,
+		I(3), S(""), S("abc"), kw("c"),
+		L(I(1), I(2)), Vc(I(1), I(2), I(3), I(4)), Vc(I(1), I(2), I(3), I(4), I(5)), L(model.Nil, I(2)),
+		model.MapOf(model.MapEntry{K: a, V: I(1)}, model.MapEntry{K: b, V: I(2)}, model.MapEntry{K: model.Key{Kw: true, S: "c"}, V: Vc(I(3))}),
+		model.SetOf(model.Key{S: "a"}, model.Key{S: "b"}),
+		mp(kw("a"), mp(kw("b"), I(1))),
+	)
+}
+
+func c13AlphabetBase() []V {
+	L, Vc, I, S := model.List, model.Vec, model.Int, model.Str
+	a, b := model.Key{Kw: true, S: "a"}, model.Key{Kw: true, S: "b"}
 	return []V{
 		model.Nil, I(0), I(1), I(2), I(-1), I(9), I(4), S("a"), kw("a"), kw("b"),
 		L(), L(I(1)), L(I(1), I(2), I(3)), Vc(), Vc(I(1)), Vc(I(1), I(2), I(3)),
@@ -36,6 +54,15 @@ func c13Alphabet() []V {
 }
 
 func c13Small() []V {
+	L, Vc, I := model.List, model.Vec, model.Int
+	base := c13SmallBase()
+	if vf.Tier != "thorough" {
+		return base
+	}
+	return append(base, I(2), I(-1), model.Str("a"), L(I(1), I(2)), Vc(I(1), I(2), I(3), I(4), I(5)), mp(kw("a"), I(1), kw("b"), Vc(I(2))))
+}
+
+func c13SmallBase() []V {
 	L, Vc, I := model.List, model.Vec, model.Int
 	return []V{model.Nil, I(1), kw("a"), L(I(1), I(2), I(3)), Vc(I(1), I(2), I(3)), mp(kw("a"), I(1)), model.SetOf(model.Key{Kw: true, S: "a"}), L(), fnVal, I(0), Vc(kw("a")), restFnVal}
 }
